@@ -596,6 +596,9 @@ func (e *Engine) step(fr *frame, in ssa.Instruction) {
 		case Map:
 			it := &mapIter{}
 			if x.M != nil {
+				if e.threads != nil {
+					e.raceMap(x.M, false)
+				}
 				it.m = x.M
 				var live []int
 				for i := range x.M.keys {
@@ -658,6 +661,9 @@ func (e *Engine) step(fr *frame, in ssa.Instruction) {
 				it.pos++
 			}
 			break
+		}
+		if it.m != nil && e.threads != nil {
+			e.raceMap(it.m, false)
 		}
 		for it.m != nil && it.pos < len(it.order) && it.m.dead[it.order[it.pos]] {
 			it.pos++
